@@ -371,6 +371,20 @@ def case_genai(rng, choice=None):
             en = err_enum(e)
             if en not in ("capacity",):
                 vs.append((f"genai-edit-raises:{en}", f"re-pointing the job / changing the model raises: {str(e)[:160]}"))
+    # … and the service moved to a GPU server with another amount of RAM per GPU (an input of the job's GPU need)
+    if not vs:
+        try:
+            cur = job.service
+            gpu2 = GPUServer.from_defaults("gpu2", storage=Storage.from_defaults("st2"), compute=SourceValue(16 * u.gpu),
+                                           ram_per_gpu=SourceValue(rng.choice([40, 24, 141]) * u.GB / u.gpu))
+            cur.server = gpu2
+            act = phys(cur.active_params)[0]
+            if not close_q(phys(job.compute_needed), (phys(cur.llm_memory_factor)[0] * act * phys(cur.nb_of_bits_per_parameter)[0] / phys(gpu2.ram_per_gpu)[0], (0, 0, 0, 0, 1))):
+                vs.append(("genai-not-refreshed:service-server", "GPUs needed not refreshed after moving the service to a GPU server with another RAM per GPU"))
+        except Exception as e:  # noqa
+            en = err_enum(e)
+            if en not in ("capacity",):
+                vs.append((f"genai-edit-raises:service-server:{en}", f"moving the service to another GPU server raises: {str(e)[:160]}"))
     return vs, {"builder": "genai", "choice": [provider, name], "spec_for_model": genai_spec(system, job, svc, gpu, starts)}
 
 
